@@ -31,8 +31,23 @@ def main():
         print('replaying %s (%s) on the current tree' % (r['key'], r['where']))
     rc = engine.run_property(a.prop, a.tier, REGISTRY[a.prop], seed=seed)
     if a.tier == 'thorough' and rc in (0, 1) and not os.environ.get('FCVERIF_NO_SELFTEST'):
-        from . import selftest
+        from . import selftest, fixture_test
+        n, bad, details = fixture_test.run(quiet=True)
+        print('ENGINE-SELFTEST: %d/%d planted controls of the fixture crate recognised' % (n - bad, n))
+        for d in details:
+            print('ENGINE-CONTROL-FAILED %s got=%s want=%s' % d)
         rc2 = selftest.run(a.prop)
+        try:
+            evp = os.path.join(engine.VERIF, 'evidence', '%s.json' % a.prop)
+            ev = json.load(open(evp))
+            ev['coverage']['engine_controls'] = n
+            ev['coverage']['engine_controls_ok'] = n - bad
+            json.dump(ev, open(evp, 'w'), indent=1)
+        except Exception:
+            pass
+        if bad:
+            print('NO-VERDICT: the analysis engine failed its own planted controls; results above are not trustworthy')
+            return 2
         rc = max(rc, rc2)
     return rc
 
